@@ -289,8 +289,51 @@ EnvPt(W, pt) == IF pt.j > 0 THEN EnvRoot(W, pt.k, pt.l, pt.j)
 TimeOf(W, pt) == EnvPt(W, pt).t
 EvalMat(es, W, env, k) == Tup([r \in 1..Len(es) |-> Tup([c \in 1..Len(es[r]) |-> EvalW(es[r][c], W, env, k)])])
 
+(***************************************************************************)
+(* Dense output (C08): one polynomial per integrator step.                 *)
+(* Shooting: the coefficient vectors of Schemes (rk: quartic, Euler:       *)
+(* line).  Collocation: the Lagrange interpolant through the step's start  *)
+(* state and helper states.  StateAt(W, k, l, s) is the state at local     *)
+(* time s in [0, dt] of step l of interval k.                              *)
+(***************************************************************************)
+StepLen(W, k) == Mul(Len_(W, k), Q(1, W.M))
+StateAt(W, k, l, s) ==
+  IF W.d.method.kind = "DC"
+  THEN LET st == W.res[k + 1].roots[l + 1]
+           tr == TauRoot(Tau(W.d.method.scheme, W.d.method.degree))
+           Xc == <<W.res[k + 1].xs[l + 1]>> \o st.xr
+           w == Tup([r \in 1..Len(tr) |-> PEval(Lagrange(tr, r), Div(s, StepLen(W, k)))])
+       IN Tup([i \in 1..NX(W.d) |-> SumSeq(Tup([r \in 1..Len(tr) |-> Mul(w[r], Xc[r][i])]))])
+  ELSE PolyVec(W.res[k + 1].coefs[l + 1], s)
+
+EnvDense(W, k, l, s) ==
+  [EnvIntg(W, k, l) EXCEPT !.x = StateAt(W, k, l, s), !.t = Add(W.ig[k * W.M + l + 1], s)]
+\* the very last sample: end of the last step's polynomial, final-node values of everything else
+EnvDenseEnd(W) ==
+  [EnvNode(W, W.N) EXCEPT !.x = StateAt(W, W.N - 1, W.M - 1, StepLen(W, W.N - 1))]
+
+PredictRefine(W, r) ==
+  LET rf == r.refine
+      n == W.N * W.M * rf
+      pt(i) == [k |-> (i - 1) \div (W.M * rf), l |-> ((i - 1) \div rf) % W.M, j |-> (i - 1) % rf]
+      sOf(i) == Mul(StepLen(W, pt(i).k), Q(pt(i).j, rf))
+  IN [t |-> Tup([i \in 1..n + 1 |-> IF i = n + 1 THEN W.g[W.N + 1] ELSE Add(W.ig[pt(i).k * W.M + pt(i).l + 1], sOf(i))]),
+      v |-> Tup([i \in 1..n + 1 |-> IF i = n + 1 THEN Eval(r.e, EnvDenseEnd(W))
+                                    ELSE Eval(r.e, EnvDense(W, pt(i).k, pt(i).l, sOf(i)))])]
+
+\* sampler(e)(gist, t): query times are given as (step index 1..N*M, fraction of the step in [0,1])
+PredictSampler(W, r) ==
+  LET q == r.tq
+      kOf(i) == (q[i][1] - 1) \div W.M
+      lOf(i) == (q[i][1] - 1) % W.M
+      sOf(i) == Mul(StepLen(W, kOf(i)), q[i][2])
+  IN [t |-> Tup([i \in 1..Len(q) |-> Add(W.ig[q[i][1]], sOf(i))]),
+      v |-> Tup([i \in 1..Len(q) |-> Eval(r.e, EnvDense(W, kOf(i), lOf(i), sOf(i)))])]
+
 PredictReadR(W, r) ==
-  IF r.kind = "msample"
+  IF r.kind = "refine" THEN PredictRefine(W, r)
+  ELSE IF r.kind = "sampler" THEN PredictSampler(W, r)
+  ELSE IF r.kind = "msample"
   THEN LET pts == GridPoints(W, r.grid)
        IN [t |-> Tup([i \in 1..Len(pts) |-> TimeOf(W, pts[i])]),
            v |-> Tup([i \in 1..Len(pts) |-> EvalMat(r.es, W, EnvPt(W, pts[i]), IF pts[i].l = 0 /\ pts[i].j = 0 THEN pts[i].k ELSE -1)])]
